@@ -857,7 +857,7 @@ def _check_h_unknown_ref(D, h):
 _GT_CACHE = {}
 _EST_PRIMES = []
 _RATE = {"n": 0, "bad": 0}
-_COV = {"lines": 0, "lines_with_coords": 0, "sparse_empty": 0}
+_COV = {"lines": 0, "lines_with_coords": 0, "sparse_empty": 0, "filtered": 0, "removed": 0}
 
 
 def analytic_estimate(D):
@@ -946,7 +946,70 @@ def parse_full(ans):
     g = _coords(gens)
     lines = [] if rels == "-" else [_line_entries(t) for t in rels.split(";")]
     extra = _coords(parts[4][6:]) if len(parts) > 4 and parts[4].startswith("extra=") else []
+    _FILES["filtered"] = _FILES["removed"] = None
+    for t in parts[5:]:
+        if t.startswith("filtered="):
+            _FILES["filtered"] = [] if t[9:] == "-" else [[] if l == "e" else [parse_fac(x) for x in l.split(",")] for l in t[9:].split(";")]
+        if t.startswith("removed="):
+            _FILES["removed"] = []
+            if t[8:] != "-":
+                for l in t[8:].split(";"):
+                    q, rest = l.split("=", 1)
+                    _FILES["removed"].append((int(q), [parse_fac(x) for x in rest.split(",")] if rest else []))
     return h, invs, g, lines, files, extra
+
+
+_FILES = {"filtered": None, "removed": None}      # relations.filtered / relations.removed of the answer parsed last
+
+
+def relation_value_exp(D, pes, cache):
+    """reduced form of prod [p]^e over (p, e) pairs; string on error"""
+    acc = form_principal(D)
+    for p, e in pes:
+        f = cache.get(p)
+        if f is None:
+            if not is_prime(p):
+                return f"{p} is not a prime"
+            f = prime_form(D, p)
+            if f is None:
+                return f"no ideal of norm {p}: ({D}/{p}) = -1"
+            cache[p] = f
+        acc = form_compose(acc, form_pow(f, e, D))
+    return acc
+
+
+def _check_filter_files(D):
+    """relations.filtered: every line is a trivial product; relations.removed: `p = prod l^e` holds in the class group"""
+    cache = {}
+    pr = form_principal(D)
+    fl, rm = _FILES["filtered"] or [], _FILES["removed"] or []
+    # at most ~MAX_FILTER_LINES lines of each file (evenly spread; exponents are of the size of h, every line costs
+    # dozens of compositions); identical lines of a second run (other profile) are not recomputed
+    for i in range(0, len(fl), max(1, len(fl) // MAX_FILTER_LINES)):
+        row = fl[i]
+        key = (D, "f", tuple(row))
+        if key in _SEEN:
+            continue
+        v = relation_value_exp(D, row, cache)
+        if v != pr:
+            return f"D = {D}: relations.filtered line {i} is not trivial in the class group ({v}): {' '.join(show_fac(x) for x in row)}"
+        _SEEN.add(key)
+        _COV["filtered"] += 1
+    for i in range(0, len(rm), max(1, len(rm) // MAX_FILTER_LINES)):
+        q, row = rm[i]
+        key = (D, "r", q, tuple(row))
+        if key in _SEEN:
+            continue
+        v = relation_value_exp(D, [(q, -1)] + row, cache)
+        if v != pr:
+            return f"D = {D}: relations.removed line {i} does not hold in the class group ({v}): {q} = {' '.join(show_fac(x) for x in row)}"
+        _SEEN.add(key)
+        _COV["removed"] += 1
+    return None
+
+
+MAX_FILTER_LINES = 60
+_SEEN = set()
 
 
 def parse_poly(ans):
@@ -1074,6 +1137,9 @@ def oracle(case, ans):
         if not lines:
             return f"D = {D}: relations.sieve is empty"
         msg = _check_lines(D, lines, "relations.sieve line")
+        if msg:
+            return msg
+        msg = _check_filter_files(D)
         if msg:
             return msg
         # coordinates: every emitted relation supported on the generators maps to 0, orders agree with the forms
@@ -1401,7 +1467,8 @@ def extra_coverage():
     return {"relation_lines_checked_by_form_arithmetic": _COV["lines"],
             "relation_lines_checked_against_reported_coordinates": _COV["lines_with_coords"],
             "classgroup_calls": _RATE["n"], "classgroup_calls_without_result": _RATE["bad"],
-            "sparse_path_results_without_structure": _COV["sparse_empty"]}
+            "sparse_path_results_without_structure": _COV["sparse_empty"],
+            "relations_filtered_lines_checked": _COV["filtered"], "relations_removed_lines_checked": _COV["removed"]}
 
 
 def nontrivial(case, ans):
